@@ -120,8 +120,19 @@ TCheck == /\ Consumed /\ checked < Len(w)
           /\ checked' = checked + 1
           /\ UNCHANGED <<tid, w, bs, pending, out, batches>>
 
+\* aliased input lists (the SAME array object at several positions): the trace is recorded for the list of distinct objects
+\* (w, res, batches with repeated rows dropped); every further position holding an already listed object must have received
+\* the result of that object (Tr.alias[k].res = the projection recorded for that position)
+\* compared: window, presence of logits and the per-frame content inside the window (what the statement promises); the number
+\* of padding frames and the text just outside a cropped row legitimately depend on the batch the copy happened to land in
+AliasOK == \A k \in 1..Len(Tr.alias) :
+              /\ Tr.alias[k].src \in 1..Len(Tr.res)
+              /\ LET a == Tr.alias[k].res
+                     r == Tr.res[Tr.alias[k].src]
+                 IN a.cs = r.cs /\ a.lo = r.lo /\ a.hi = r.hi /\ a.lk = r.lk /\ a.lruns = r.lruns /\ a.tlen # 9999
+
 TNext == TBatch \/ TCheck
-TAccept == TKMark(tid, Len(batches) + checked, Consumed /\ checked = Len(w))
+TAccept == TKMark(tid, Len(batches) + checked, Consumed /\ checked = Len(w) /\ AliasOK)
 TPost == TKPost
 ASSUME TKReset
 =============================================================================
